@@ -195,6 +195,49 @@ theorem orig_conventions_inverse (p q : CPt) (h : toConv p = some q) :
   have : ({ q with val := q.val } : CPt) = q := rfl
   rw [this, from_to_conventions p q h]
 
+/-- `orig_conventions` is a fixed non-zero multiple of its argument (±1 or ±1000, decided by the point alone): linear, so
+    residuals, pulls and uncertainties convert with the same factor as the value -/
+theorem orig_conventions_linear (q : CPt) (v : ℝ) : origConv q v = origConv q 1 * v := by
+  obtain ⟨val, errs, phi, FTn, varphi, varFTn, trento, phiDeg, pb⟩ := q
+  cases trento <;> cases pb <;> rcases phi with _ | f <;>
+    rcases FTn with _ | n <;> rcases varphi with _ | w <;> rcases varFTn with _ | m <;>
+    (try cases hn : flipsFTn n) <;> (try cases hm : flipsVar m) <;>
+    simp_all [origConv] <;> (try ring)
+
+theorem orig_conventions_add (q : CPt) (a b : ℝ) : origConv q (a + b) = origConv q a + origConv q b := by
+  rw [orig_conventions_linear q (a + b), orig_conventions_linear q a, orig_conventions_linear q b]; ring
+
+/-- the factor has modulus 1 (nb) or 1000 (pb): a convention change never loses or rescales a prediction otherwise -/
+theorem orig_conventions_abs (q : CPt) (v : ℝ) :
+    |origConv q v| = (if q.pb then 1000 else 1) * |v| := by
+  obtain ⟨val, errs, phi, FTn, varphi, varFTn, trento, phiDeg, pb⟩ := q
+  cases trento <;> cases pb <;> rcases phi with _ | f <;>
+    rcases FTn with _ | n <;> rcases varphi with _ | w <;> rcases varFTn with _ | m <;>
+    (try cases hn : flipsFTn n) <;> (try cases hm : flipsVar m) <;>
+    simp_all [origConv, abs_mul] <;> (try ring)
+
+/-- `to_conventions` rejects exactly one kind of point: Trento frame, no `varphi`, and a `varFTn` other than ±1 -/
+theorem toConv_isSome_iff (p : CPt) :
+    (toConv p).isSome = true ↔
+      ¬ (p.trento = true ∧ p.varphi = none ∧ ∃ n, p.varFTn = some n ∧ flipsVar n = false) := by
+  obtain ⟨val, errs, phi, FTn, varphi, varFTn, trento, phiDeg, pb⟩ := p
+  cases trento <;> cases phiDeg <;> rcases phi with _ | f <;>
+    rcases FTn with _ | n <;> rcases varphi with _ | w <;> rcases varFTn with _ | m <;>
+    (try cases hn : flipsFTn n) <;> (try cases hm : flipsVar m) <;>
+    simp_all [toConv]
+
+/-- what `to_conventions` never touches: the frame / unit flags it will need for the way back, the harmonic indices,
+    which angles are present, and the number of uncertainties -/
+theorem toConv_keeps (p q : CPt) (h : toConv p = some q) :
+    q.trento = p.trento ∧ q.phiDeg = p.phiDeg ∧ q.pb = p.pb ∧ q.FTn = p.FTn ∧ q.varFTn = p.varFTn ∧
+    q.phi.isSome = p.phi.isSome ∧ q.varphi.isSome = p.varphi.isSome ∧ q.errs.length = p.errs.length := by
+  obtain ⟨val, errs, phi, FTn, varphi, varFTn, trento, phiDeg, pb⟩ := p
+  cases trento <;> cases phiDeg <;> cases pb <;> rcases phi with _ | f <;>
+    rcases FTn with _ | n <;> rcases varphi with _ | v <;> rcases varFTn with _ | m <;>
+    (try cases hn : flipsFTn n) <;> (try cases hm : flipsVar m) <;>
+    simp [toConv, *] at h <;>
+    subst h <;> simp
+
 /-- the code before the repair did NOT have the property: for a Trento-frame point with `varphi` and the default
     `varFTn = -1` the measured value is left alone by `to_conventions` / `from_conventions`, but the prediction
     was negated -/
